@@ -99,6 +99,31 @@ def If(cond: bool | Bool, true_value: float | FP, false_value: float | FP) -> FP
 def If[T: Base](cond: bool | Bool, true_value: T, false_value: T) -> T: ...
 
 
+def _if_shortcut(args):
+    """The simplified form of If(*args), or None if there is none."""
+    if is_true(args[0]):
+        return args[1].append_annotations(args[0].annotations)
+    if is_false(args[0]):
+        return args[2].append_annotations(args[0].annotations)
+
+    if isinstance(args[1], Base) and args[1].op == "If" and args[1].args[0] is args[0]:
+        return If(args[0], args[1].args[1], args[2])
+    if isinstance(args[1], Base) and args[1].op == "If" and args[1].args[0] is Not(args[0]):
+        return If(args[0], args[1].args[2], args[2])
+    if isinstance(args[2], Base) and args[2].op == "If" and args[2].args[0] is args[0]:
+        return If(args[0], args[1], args[2].args[2])
+    if isinstance(args[2], Base) and args[2].op == "If" and args[2].args[0] is Not(args[0]):
+        return If(args[0], args[1], args[2].args[1])
+
+    if args[1] is args[2]:
+        return args[1]
+    if args[1] is true() and args[2] is false():
+        return args[0]
+    if args[1] is false() and args[2] is true():
+        return ~args[0]
+    return None
+
+
 def If(cond, true_value, false_value):
     # the coercion here is strange enough that we'll just implement it manually
     args = [cond, true_value, false_value]
@@ -130,26 +155,12 @@ def If(cond, true_value, false_value):
         else:
             raise ClaripyTypeError(f"can't convert {type(args[2])} to {ty}")
 
-    if is_true(args[0]):
-        return args[1].append_annotations(args[0].annotations)
-    if is_false(args[0]):
-        return args[2].append_annotations(args[0].annotations)
-
-    if isinstance(args[1], Base) and args[1].op == "If" and args[1].args[0] is args[0]:
-        return If(args[0], args[1].args[1], args[2])
-    if isinstance(args[1], Base) and args[1].op == "If" and args[1].args[0] is Not(args[0]):
-        return If(args[0], args[1].args[2], args[2])
-    if isinstance(args[2], Base) and args[2].op == "If" and args[2].args[0] is args[0]:
-        return If(args[0], args[1], args[2].args[2])
-    if isinstance(args[2], Base) and args[2].op == "If" and args[2].args[0] is Not(args[0]):
-        return If(args[0], args[1], args[2].args[1])
-
-    if args[1] is args[2]:
-        return args[1]
-    if args[1] is true() and args[2] is false():
-        return args[0]
-    if args[1] is false() and args[2] is true():
-        return ~args[0]
+    simplified = _if_shortcut(args)
+    if simplified is not None:
+        # like any other rewrite: relocate what can be relocated, keep the If node if an annotation would be lost
+        simplified = operations._handle_annotations(simplified, tuple(args))
+        if simplified is not None:
+            return simplified
 
     if issubclass(ty, Bits):
         return ty("If", tuple(args), length=args[1].length)
